@@ -126,7 +126,7 @@ REJECTS = (
 )
 
 VALID_TOKENS = ("1", "2.5", "-3", "0", "10.25", "min", "max", "mean", "std", "+", "-", "*", "/", "(", ")")
-INVALID_TOKENS = ("foo", "min2", "mean*2", "sqrt", "^", "%", "max,", "(1", "2)", "Mean", "MIN", "st", "x", "1+1", "pi", "e", "**", "//", "[", "abs")
+INVALID_TOKENS = ("std\n", "mean\n", ")\n", "+\n", "\nmax", "min\r", "foo", "min2", "mean*2", "sqrt", "^", "%", "max,", "(1", "2)", "Mean", "MIN", "st", "x", "1+1", "pi", "e", "**", "//", "[", "abs")
 
 
 def gen_stats(rng):
@@ -143,7 +143,8 @@ def gen_grid(rng):
     lat0, lon0 = rng.randint(-40, 40), rng.randint(-150, 150)
     lat = [lat0 + i for i in range(nlat)]
     lon = [lon0 + i for i in range(nlon)]
-    field = [[(None if rng.chance(0.15) else rng.dyadic(1, 30, 4)) for _ in range(nlon)] for _ in range(nlat)]
+    scale = rng.weighted([(1.0, 8), (2.0**-40, 1), (2.0**20, 1)])  # trace quantities / large counts (exact scalings)
+    field = [[(None if rng.chance(0.15) else rng.dyadic(1, 30, 4) * scale) for _ in range(nlon)] for _ in range(nlat)]
     if rng.chance(0.3):  # north-to-south latitudes, as many reanalysis products store them
         lat = lat[::-1]
         field = field[::-1]
@@ -461,7 +462,8 @@ def execute(scn):
                     want = model_eval(op["tests"][name][k]["ast"], ms)
                 except ZeroDivisionError:
                     continue
-                if not (math.isclose(float(got), want, rel_tol=1e-9, abs_tol=1e-9) or (got != got and want != want)):
+                mag = max(abs(ms["min"]), abs(ms["max"]), 1e-300)
+                if not (math.isclose(float(got), want, rel_tol=1e-9, abs_tol=1e-9 * min(1.0, mag)) or (got != got and want != want)):
                     bad = (name, k, got, want)
                     break
             if bad:
